@@ -733,7 +733,11 @@ func (ex *Exec) requireASCII(n *Term, b []*Term, what string) {
 	if bad.IsFalse() {
 		return
 	}
-	if bad.IsTrue() || ex.sol.CheckWith(bad) != Unsat {
+	if bad.IsTrue() {
+		ex.unsupported(what + ": non-ASCII bytes")
+	}
+	// the ASCII part of the input space is explored; the rest ends as unsupported (inconclusive), not the whole
+	if ex.decide([]*Term{tc.Not(bad), bad}, "ascii-only") == 1 {
 		ex.unsupported(what + ": possibly non-ASCII bytes (constrain the alphabet)")
 	}
 }
